@@ -50,6 +50,10 @@ type Page struct {
 	MediaBox [4]float64 `json:"mediabox"`
 	Rotate   int        `json:"rotate"`
 	Lines    []Line     `json:"lines"`
+	// Trailer: operators written behind the lines, outside any q ... Q (white-space separated tokens, e.g.
+	// "1 0 0 1 3 -2 cm 0.5 Tc"): they change the graphics state for the rest of this page's content only -
+	// every page starts from the initial state (§8.4.1).
+	Trailer string `json:"trailer,omitempty"`
 }
 
 // Doc is one revision of the logical document.
